@@ -15,7 +15,7 @@
 
    This file contains only the property theorems; proofs are in Proofs/NJobs.v. *)
 From Coq Require Import ZArith List Bool Lia.
-Require Import JV.Base.PyPrelude JV.Model.NJobs JV.Gen.T_njobs JV.Gen.T_nested JV.Proofs.NJobs.
+Require Import JV.Base.PyPrelude JV.Model.NJobs JV.Gen.T_njobs JV.Gen.T_nested JV.Gen.T_call JV.Proofs.NJobs.
 Require Import JV.Model.C15Executor JV.Gen.T_executor JV.Proofs.C15Executor.
 Require Import JV.Model.Config JV.Gen.T_active_backend JV.Proofs.C15Active.
 Import ListNotations.
@@ -76,6 +76,15 @@ Theorem C15_one_is_sequential : forall b e,
   forall s, worker_site s {| bkind := KSeq; blevel := blevel b |} = s.
 Proof. exact C15_one_is_sequential_holds. Qed.
 Print Assumptions C15_one_is_sequential.
+
+(* ... and this holds for EVERY backend, user-defined ones included: Parallel.__call__ (test regenerated: Gen/T_call.v) takes the
+   in-thread path exactly when the number of workers the backend's configure() returned is 1; for the built-in backends that is
+   exactly when they fell back to the sequential backend *)
+Theorem C15_one_worker_runs_in_calling_thread :
+  (forall n, call_runs_inline n = true <-> n = 1) /\
+  (forall b e n b' eff, configure b e n = Ok (b', eff) -> (call_runs_inline eff = true <-> bkind b' = KSeq)).
+Proof. split; [exact call_inline_iff | exact one_worker_runs_inline]. Qed.
+Print Assumptions C15_one_worker_runs_in_calling_thread.
 
 (* configure never invents workers: it keeps the resolved number, or falls back to sequential exactly when it is 1 *)
 Theorem C15_configure : forall b e n b' eff,
